@@ -63,7 +63,7 @@ func completeGetopt(fm *eval.Frame, vArgs, vOpts, vArgHandlers any) error {
 		var argHandler eval.Callable
 		if len(parsedArgs) < len(argHandlers) {
 			argHandler = argHandlers[len(parsedArgs)]
-		} else if variadic {
+		} else if variadic && len(argHandlers) > 0 {
 			argHandler = argHandlers[len(argHandlers)-1]
 		}
 		if argHandler != nil {
